@@ -6,8 +6,8 @@ import gen as G
 
 class C20(Prop):
     pid = "C20"
-    fields = {"obs": ["outcome", "errors", "logs", "writes", "line"], "fs": "*", "counters": "*",
-              "clean": ["ofiles", "otests", "writes", "printed", "passed", "failed", "added", "updated", "skipped", "removed"], "readsum": "*"}
+    fields = {"obs": ["outcome", "errors", "logs", "writes", "~line"], "fs": "*", "counters": "*",
+              "clean": ["layout", "ofiles", "otests", "writes", "printed", "passed", "failed", "added", "updated", "skipped", "removed"], "readsum": ["ok", "agree", "~render"]}
     rule = ("long mixed histories over all five entry points (passes, creations, updates, diff failures, invalid input, "
             "matcher failures, missing snapshots on CI, calls without values, snaps.Skip), two processes with different modes, "
             "counters read and Clean run (its exact stdout read back by the verified reader, colours on or off) after each process; the oracle tallies the signals received by the scripted testingT and compares "
